@@ -302,8 +302,13 @@ def XNPV(
     https://support.microsoft.com/en-us/office/
         xnpv-function-1b42bbf6-370f-4532-a0eb-d67c16b664b7
     """
-    values = values.flatten(func_xltypes.Number, None)
-    dates = dates.flatten(func_xltypes.DateTime, None)
+    # (Array.flatten's default filter drops every falsy item: a cash flow
+    # of zero is a value.)
+    def is_value(item):
+        return item is not None
+
+    values = values.flatten(func_xltypes.Number, is_value)
+    dates = dates.flatten(func_xltypes.DateTime, is_value)
 
     # TODO: Ignore non numeric cells and boolean cells.
     if len(values) != len(dates):
